@@ -50,8 +50,8 @@ CLAIMED = {
         "technique": TECH,
     },
     "C04": {
-        "level_text": "bounded symbolic verification of the real EvolvableModule.preserve_parameters and EvolvableCNN.shrink_preserve_parameters (the functions every recreate_network() hands its (old,new) pair to): for ALL parameter contents and every pair of old/new shapes with rank<=4(5) and extents in {1,2,3}(4) per axis (all pairs at rank<=3, an evenly spaced subset above): the new parameter equals the old one on the common index range (leading [:min0,:min1] block with spatial axes intact for the CNN variant), keeps its fresh value elsewhere, equal shapes give identical parameters, parameters only in the new net and the old net are untouched, names and the returned object are the new network's",
-        "level_note": NOTE + "; that each recreate_network() passes the right (old,new) pair, and clone()(x)==self(x), need real layer construction / forward passes and are outside the claim",
+        "level_text": "bounded symbolic verification of the real EvolvableModule.preserve_parameters and EvolvableCNN.shrink_preserve_parameters (the functions every recreate_network() hands its (old,new) pair to): for ALL parameter contents and every pair of old/new shapes with rank<=4(5) and extents in {1,2,3}(4) per axis (all pairs at rank<=3, an evenly spaced subset above): the new parameter equals the old one on the common index range (leading [:min0,:min1] block with spatial axes intact for the CNN variant), keeps its fresh value elsewhere, equal shapes give identical parameters, parameters only in the new net and the old net are untouched, names and the returned object are the new network's; AND real mutations with the real recreate_network of real EvolvableMLP, EvolvableCNN, StochasticActor (Box, Discrete), DeterministicActor, QNetwork, ValueNetwork instances whose current weights are SYMBOLS (add/remove node, layer, channel, latent node, nested encoder/head mutations): every parameter that exists before and after (log_std included) equals its old symbolic value on the common index range, i.e. each recreate_network hands the right (old,new) pair to the copy function and names survive the rebuild",
+        "level_note": NOTE + "; symbolic content written into freshly built real parameters is captured in a shadow store; clone()(x)==self(x) (forward passes) and EvolvableMultiInput/LSTM/SimBa/ResNet/GPT/BERT are outside the claim",
         "technique": TECH,
     },
     "C05": {
